@@ -1,48 +1,51 @@
 import PedalProofs.TimeoutLemmas
 namespace Pedal.Timeout
 
-/-- the grader's steps: E2's two writes land in E2's own buffer because `sys.stdout` is it -/
+-- the grader's steps: E2's two writes land in E2's own buffer because `sys.stdout` is it
 set_option maxHeartbeats 4000000 in
 theorem invd_stepG (p : Prog) (s : St) (h : Inv s) (d : InvData p s) : InvData p (stepG fixed s) := by
-  obtain ⟨hl, hstk, hpend, -, -, -, -, -, -, -, -, -, -, -, -, -, -, -, -⟩ := h
+  obtain ⟨hl, hstk, hpend, -, -, -, -, -, -, -, -, hctx, -, -, -, -, -, -, -⟩ := h
   obtain ⟨hbuf2, hout2v, hreal, haux⟩ := d
   rcases s with ⟨gpc, tpc, claim, pending, tExit, timedOut, patches, stdouts, sysStdout, buf1, buf2, real, raw, out1, out2, ctxs, id1, id2, nextId, exc, feedback, excAtReturn, depthAtReturn, excBeforeNext, e2Escaped⟩
-  simp only at hl hstk hpend hbuf2 hout2v hreal haux
+  simp only at hl hstk hpend hctx hbuf2 hout2v hreal haux
   cases gpc <;> rcases claim with _ | (_ | _) <;> cases tpc <;>
     simp [legal, GPc.rank, TPc.rank] at hl <;>
     (simp only [expStacks, Prod.mk.injEq] at hstk
      obtain ⟨rfl, rfl, rfl⟩ := hstk
      constructor <;>
-       simp_all [stepG, fixed, expBuf2, GPc.rank, TPc.rank,
-         St.stopPatches, St.write, St.appendOutput, St.capture, St.lastCtx, St.content])
+       first
+       | assumption
+       | (simp_all [stepG, fixed, expBuf2, GPc.rank, TPc.rank,
+           St.stopPatches, St.write, St.appendOutput, St.capture, St.lastCtx, St.content]))
 
-/-- T's steps outside student code write nothing -/
+-- T's steps outside student code write nothing
 set_option maxHeartbeats 4000000 in
 theorem invd_stepT_other (p : Prog) (s : St) (c : TChoice) (h : Inv s) (d : InvData p s) (hrun : s.tpc ≠ .run) :
     InvData p (stepT fixed p s c) := by
-  obtain ⟨hl, hstk, hpend, -, -, -, -, -, -, -, -, -, -, -, -, -, -, -, -⟩ := h
+  obtain ⟨hl, hstk, hpend, -, -, -, -, -, -, -, -, hctx, -, -, -, -, -, -, -⟩ := h
   obtain ⟨hbuf2, hout2v, hreal, haux⟩ := d
   rcases s with ⟨gpc, tpc, claim, pending, tExit, timedOut, patches, stdouts, sysStdout, buf1, buf2, real, raw, out1, out2, ctxs, id1, id2, nextId, exc, feedback, excAtReturn, depthAtReturn, excBeforeNext, e2Escaped⟩
-  simp only at hl hstk hpend hbuf2 hout2v hreal haux hrun
+  simp only at hl hstk hpend hctx hbuf2 hout2v hreal haux hrun
   cases tpc <;> rcases claim with _ | (_ | _) <;>
     simp [legal, GPc.rank, TPc.rank] at hl hrun <;>
     (constructor <;>
       first
+      | assumption
       | (simp [stepT, fixed, St.stopPatches, St.appendOutput, St.capture]; done)
       | (cases stdouts <;> simp_all [stepT, fixed, St.stopPatches, St.appendOutput, St.capture, St.content]; done)
       | (cases patches <;> simp_all [stepT, fixed, St.stopPatches, St.appendOutput, St.capture, St.content]; done)
       | (cases stdouts <;> cases tExit <;> simp_all [stepT, fixed, St.stopPatches, St.appendOutput, St.capture, St.content]))
 
-/-- T's steps in student code: it writes only while no SystemExit is pending and it does not
-swallow; by then `sys.stdout` is E1's buffer or the real stdout, never E2's buffer -/
+-- T's steps in student code: it writes only while no SystemExit is pending and it does not
+-- swallow; by then `sys.stdout` is E1's buffer or the real stdout, never E2's buffer
 set_option maxHeartbeats 4000000 in
 theorem invd_stepT_run (p : Prog) (hp : p.swallows = true → p.prints = false) (s : St) (c : TChoice)
     (h : Inv s) (d : InvData p s) (hrun : s.tpc = .run) : InvData p (stepT fixed p s c) := by
-  obtain ⟨hl, hstk, hpend, -, -, -, -, -, -, -, -, -, -, -, -, -, -, -, -⟩ := h
+  obtain ⟨hl, hstk, hpend, -, -, -, -, -, -, -, -, hctx, -, -, -, -, -, -, -⟩ := h
   obtain ⟨hbuf2, hout2v, hreal, haux⟩ := d
   rcases s with ⟨gpc, tpc, claim, pending, tExit, timedOut, patches, stdouts, sysStdout, buf1, buf2, real, raw, out1, out2, ctxs, id1, id2, nextId, exc, feedback, excAtReturn, depthAtReturn, excBeforeNext, e2Escaped⟩
   rcases p with ⟨prints, swallows, blocked⟩
-  simp only at hl hstk hpend hbuf2 hout2v hreal haux hrun hp
+  simp only at hl hstk hpend hctx hbuf2 hout2v hreal haux hrun hp
   subst hrun
   cases blocked <;> cases pending <;> cases swallows <;> cases prints <;> cases c <;>
     rcases claim with _ | (_ | _) <;> cases gpc <;>
@@ -50,6 +53,8 @@ theorem invd_stepT_run (p : Prog) (hp : p.swallows = true → p.prints = false) 
     (simp only [expStacks, Prod.mk.injEq] at hstk
      obtain ⟨rfl, rfl, rfl⟩ := hstk
      constructor <;>
-       simp_all [stepT, fixed, expBuf2, GPc.rank, TPc.rank, St.write])
+       first
+       | assumption
+       | (simp_all [stepT, fixed, expBuf2, GPc.rank, TPc.rank, St.write]))
 
 end Pedal.Timeout
